@@ -173,6 +173,12 @@ package proto
 //@ -- nested quantifier reasoning)
 //@ spec func uvStable(b Val) Bool = forall P, x :: trigger(uvAt(arrayof(old(b.Buf)), P, x), uvAt(arrayof(old(b.Buf)), P, x) && offset(old(b.Buf)) <= P && P + uvsize(x) <= offset(old(b.Buf)) + old(len(b.Buf)) ==> uvAt(arrayof(b.Buf), P - offset(old(b.Buf)) + offset(b.Buf), x))
 
+//@ contract lemmaUvAtStable(s, t, p, n, x) props(C01,C17)
+//@   requires 0 <= p && 0 <= n && n <= len(s) && n <= len(t) && p + uvsize(x) <= n
+//@   requires forall k in 0..n :: t[k] == s[k]
+//@   requires uvAt(arrayof(s), offset(s) + p, x)
+//@   ensures uvAt(arrayof(t), offset(t) + p, x) {varint-image-survives}
+
 //@ contract (b *Buffer) PutUInt8(x) props(C01,C17)
 //@   requires b != nil
 //@   modifies b.Buf
